@@ -404,7 +404,8 @@ func execRawRecv(c *core.Case, rc *rawRecvCase) {
 	all := payload(rc.PayloadSeed, 0, 1<<16)
 	off, seq := 0, 0
 	var valid []byte
-	refused := false // a packet of the live stream itself was refused
+	oversizeRefused := false // … for exceeding the receive buffer, and answered so
+	refused := false         // a packet of the live stream itself was refused
 	outcome := "clean"
 	for i, st := range rc.Steps {
 		if liveRefusal(st.Op) && rd != nil {
@@ -489,6 +490,9 @@ func execRawRecv(c *core.Case, rc *rawRecvCase) {
 			outcome = "wrong-condition"
 		case want != "":
 			c.Count("refusal_"+strings.ReplaceAll(want, "-", "_"), 1)
+			if st.Op == "oversize" {
+				oversizeRefused = true
+			}
 		}
 		if liveRefusal(st.Op) {
 			refused = true
@@ -569,6 +573,16 @@ func execRawRecv(c *core.Case, rc *rawRecvCase) {
 		}
 	} else if refused && len(got) < len(valid) && ended {
 		c.Violate("ibb:loss:after-refusal", "a refused packet disturbed data already delivered: %d valid bytes were acknowledged before it, the reader got %d and then %v", len(valid), len(got), rerr)
+	} else if oversizeRefused {
+		// A packet refused for exceeding the receive buffer was not taken: the
+		// reader's bytes are always a prefix of the accepted packets.  (For
+		// undecodable packets whether a partial decode is dropped is not demanded.)
+		if len(got) > len(valid) {
+			c.Violate("ibb:refusal:oversize:refused-packet-delivered", "the packet that was refused with <resource-constraint/> reached the reader all the same: %d bytes were accepted (SetReadBuffer(%d), block %d), the reader got %d (then %v); beyond the accepted bytes: %s",
+				len(valid), rc.ReadBuffer, rc.Block, len(got), rerr, around(got, len(valid)))
+		} else {
+			c.Count("oversize_refusals_checked_against_reader", 1)
+		}
 	}
 	c.Count("raw_sender_streams", 1)
 	c.Count("carrier_"+rc.Carrier, 1)
